@@ -70,6 +70,9 @@ type Proxy struct {
 	ups          []*peers.XUpstream
 	h1clients    []*peers.H1Client
 	h1ups        []*peers.H1Upstream
+	h2clients    []*peers.H2Client
+	h2ups        []*peers.H2Upstream
+	h2UpOpts     peers.H2Opts
 	dialMu       sync.Mutex
 	garbage      []*peers.GarbageClient
 	garbageTok   map[string]bool
@@ -123,7 +126,7 @@ func DrawProxyParams(ch *sim.Choices, prop string) ProxyParams {
 	p.SegMode = ch.Pick("params", "segmode", 4)
 	p.LatMode = ch.Pick("params", "latmode", 3)
 	p.Faults = ch.Bool("params", "faults")
-	if prop == "C07" || prop == "C11" {
+	if prop == "C07" || prop == "C11" || prop == "C18" {
 		p.Faults = false // C07: the transport's segmentation is the only thing that varies; C11: the stop request is the only fault
 	}
 	p.WorkerPool = !ch.Bool("params", "noworkerpool")
@@ -166,6 +169,12 @@ func DrawProxyParams(ch *sim.Choices, prop string) ProxyParams {
 		p.Oneway = ch.Chance("params", "oneway", 1, 3)
 		p.ClientLeaves = ch.Chance("params", "leaves", 1, 3)
 		p.ProtoTimeout = ch.Chance("params", "prototimeout", 1, 4)
+	}
+	if prop == "C18" {
+		p.Proto, p.Protos, p.Auto = "http2", []string{"http2"}, false
+		p.NoRefuse = true
+		p.NConns = 1 + ch.Pick("params", "nconns18", 2)
+		p.ReqsPerConn = 1 + ch.Pick("params", "reqs18", 5)
 	}
 	if prop == "C11" {
 		p.Faults, p.NoRefuse = false, true
@@ -210,6 +219,9 @@ func (w *Proxy) protoOfConn(ci int) string { return w.P.Protos[ci%len(w.P.Protos
 func poolName(proto string) string {
 	if proto == "http1" {
 		return "Http1"
+	}
+	if proto == "http2" {
+		return "Http2"
 	}
 	return proto
 }
@@ -264,6 +276,10 @@ func (w *Proxy) buildConfig() []byte {
 	match := J{"headers": []J{{"name": "service", "value": ".*", "regex": true}}}
 	if p.Proto == "http1" {
 		pcfg = J{"downstream_protocol": "Http1", "upstream_protocol": "Http1", "router_config_name": "r0"}
+		match = J{"prefix": "/"}
+	}
+	if p.Proto == "http2" {
+		pcfg = J{"downstream_protocol": "Http2", "upstream_protocol": "Http2", "router_config_name": "r0"}
 		match = J{"prefix": "/"}
 	}
 	if p.Auto {
@@ -422,6 +438,9 @@ func (w *Proxy) Setup() error {
 	time.Sleep(time.Duration(1+ch.Pick("params", "clockskew", 1000)) * time.Microsecond)
 	RegisterScriptedFilter()
 	FLog = &filterLog{}
+	if p.Proto == "http2" {
+		w.h2UpOpts = drawH2Opts(ch, "h2up")
+	}
 	w.cfgJSON = w.buildConfig()
 	m, err := StartMosn(w.cfgJSON)
 	if err != nil {
@@ -697,6 +716,10 @@ func (w *Proxy) finish() {
 		w.checkC11()
 		return
 	}
+	if w.P.Proto == "http2" {
+		w.checkC18()
+		return
+	}
 	w.checkAll()
 }
 
@@ -730,6 +753,8 @@ func (w *Proxy) setupClients() {
 	for ci := 0; ci < w.P.NConns; ci++ {
 		if proto := w.protoOfConn(ci); proto == "http1" {
 			w.setupH1Client(ci, &reqIdx)
+		} else if proto == "http2" {
+			w.setupH2Client(ci, &reqIdx)
 		} else {
 			w.setupXClient(ci, proto, &reqIdx)
 		}
@@ -939,6 +964,10 @@ func (a *autoUp) OnData(c *sim.Conn, b []byte) {
 		w := a.w
 		w.dialMu.Lock()
 		switch {
+		case b[0] == 'P' && w.P.Proto == "http2":
+			u := w.newH2Upstream(a.host)
+			u.Start(c)
+			a.impl = u
 		case b[0] == 1 || b[0] == 2:
 			proto := "bolt"
 			if b[0] == 2 {
